@@ -2,15 +2,21 @@
 
 Scheme (DESIGN section 1: assume-guarantee by inductive invariant).  The global
 state is the bit ``dawgie.context.db_lock`` plus one ownership flag per
-connection (``Worker.__has_lock``).  Inv: the bit is set iff exactly one
-connection has its flag set.  From the point of view of one connection the
-abstract state is therefore ``owner in {none, me, other}``.  R-C13-1 shows
-that only the two primitives ``Worker._lock_db/_unlock_db`` touch bit and flag
-and that they move both together; every other rule interprets the methods of
-``Worker`` over *all* abstract entry states (owner x the boolean self-flags of
-the class, discovered, not named) with the small exact interpreter ``Sem`` and
-states its obligation on the events observed (lock / unlock / send) and on the
-entry -> exit relation.
+connection (``Worker.__has_lock``; found by its role, not by its name).  Inv:
+the bit is set iff exactly one connection has its flag set.  From the point of
+view of one connection the abstract state is (bit, own flag, "another
+connection owns it"); the Inv states are none / me / other.
+
+Events are recognised by *role*: a call that resolves to
+``dawgie.context.lock_db`` / ``unlock_db`` (written inline or reached through
+any helper called on ``self``, inlined) is the bit event; ``self.<flag> =
+<bool constant>`` is the flag event.  Wrappers such as ``Worker._lock_db`` are
+ordinary helpers.  R-C13-1 shows who may cause these events and that every
+function entered from outside moves bit and flag together; every other rule
+interprets the methods of ``Worker`` over *all* abstract entry states (the Inv
+states x the boolean self-flags of the class, discovered, not named; plus the
+closure under the roots and under the moves of other connections, which adds
+nothing on a coherent tree) with the small exact interpreter ``Sem``.
 """
 
 import ast
@@ -52,7 +58,35 @@ ACCEPTED_REFLECTIVE = {
 # logging never propagates a handler error to the caller (logging.raiseExceptions only prints)
 LOG_METHODS = {'debug', 'info', 'warning', 'error', 'critical', 'exception', 'log'}
 
-S = collections.namedtuple('S', 'owner flags told env tmp rv')
+S = collections.namedtuple('S', 'bit has other flags told env tmp rv')
+_INV = {NONE: (False, False, False), ME: (True, True, False), OTHER: (True, False, True)}
+
+
+def mk(owner, flags):
+    b, h, o = _INV[owner]
+    return S(b, h, o, flags, False, frozenset(), frozenset(), 'None')
+
+
+def clean(st):
+    return S(st.bit, st.has, st.other, st.flags, False, frozenset(), frozenset(), 'None')
+
+
+def mine(st):
+    """the lock is held and not by another connection, i.e. this connection took it"""
+    return st.bit and not st.other
+
+
+def who(st):
+    if st.other:
+        return 'other' + (' (own flag stale)' if st.has else '') + ('' if st.bit else ' (bit cleared under it)')
+    if st.bit:
+        return 'me' if st.has else 'me (flag not set)'
+    return 'none' if not st.has else 'none (own flag stale)'
+
+
+def moved_together(s0, e):
+    """whenever bit or flag changed between entry and exit, they agree at exit"""
+    return not ((e.bit != s0.bit or e.has != s0.has) and e.bit != e.has)
 
 
 def _pos(node):
@@ -83,6 +117,7 @@ class Sink:
         self.ev = {'lock': {}, 'unlock': {}, 'send': {}}
         self.problems = {}
         self.cache = {}
+        self.summ = {}
         self.funcs = {}
         self.visited = 0
         self.runs = 0
@@ -102,8 +137,6 @@ class Model:
         self.cg = ctx.cg
         self.cls = prog.cls(WORKER)
         w = WORKER + '.'
-        self.lock = prog.func(w + '_lock_db')
-        self.unlock = prog.func(w + '_unlock_db')
         self.send = prog.func(w + '_send')
         self.do_acquire = prog.func(w + '_do_acquire')
         self.do_release = prog.func(w + '_do_release')
@@ -111,7 +144,7 @@ class Model:
         self.init = prog.func(w + '__init__')
         self.api_lock = prog.func(API_LOCK)
         self.api_unlock = prog.func(API_UNLOCK)
-        self.prims = {self.lock.qname: 'lock', self.unlock.qname: 'unlock'}
+        self.do = prog.func(w + 'do')
         self.apis = {API_LOCK, API_UNLOCK}
         self.mutex = self._enum(MUTEX)
         if set(self.mutex) != {'lock', 'unlock'}:
@@ -122,7 +155,6 @@ class Model:
         self._flags()
         self._touchers()
         self.sink = Sink()
-        self._summ = {}
 
     # ----------------------------------------------------------- small facts
     def _enum(self, q):
@@ -188,25 +220,14 @@ class Model:
                 if _is_self_attr(n) and isinstance(n.ctx, (ast.Store, ast.Del)) and id(n) not in direct:
                     other.add(n.attr)
         self.flag_stores = {k: v for k, v in const.items() if k not in other}
-        cand = set()
-        for prim in (self.lock, self.unlock):
-            for n in prim.own_nodes():
-                if isinstance(n, ast.Assign):
-                    for t in n.targets:
-                        if _is_self_attr(t) and t.attr in self.flag_stores:
-                            cand.add(t.attr)
-        if len(cand) != 1:
-            raise AnalysisError(
-                f'cannot identify the per-connection ownership flag: Worker._lock_db/_unlock_db assign {sorted(cand)} '
-                '(expected exactly one boolean self attribute)'
-            )
-        self.has = cand.pop()
+        self.has = self._ownership_flag()
         self.flags = tuple(sorted(k for k in self.flag_stores if k != self.has))
 
-    # --------------------------------------------------------------- touchers
-    def _touchers(self):
-        """functions from which a primitive (or the context API) is reachable through direct calls"""
-        targets = set(self.prims) | self.apis
+    def api_of(self, call, f):
+        g = self.prog.func_of(self.prog.callee(call, f) or '')
+        return g.qname if g is not None and g.qname in self.apis else None
+
+    def _rev(self, targets):
         seen, todo = set(targets), list(targets)
         while todo:
             q = todo.pop()
@@ -214,63 +235,154 @@ class Model:
                 if e.kind == DIRECT and e.src is not None and e.src.qname not in seen:
                     seen.add(e.src.qname)
                     todo.append(e.src.qname)
+        return seen
+
+    def _ownership_flag(self):
+        """the boolean self flag that plays the role 'this connection owns the lock':
+        (1) set True where context.lock_db is called and False where context.unlock_db is called, else
+        (2) the one of those that guards a call leading to context.unlock_db, else (3) the only such guard"""
+        c_true, c_false, guard = set(), set(), set()
+        unl = self._rev({API_UNLOCK})
+        for f in self.worker_funcs():
+            apis = {self.api_of(c, f) for c in f.calls()}
+            for attr, stores in self.flag_stores.items():
+                for sf, n in stores:
+                    if sf is f and n.value.value is True and API_LOCK in apis:
+                        c_true.add(attr)
+                    if sf is f and n.value.value is False and API_UNLOCK in apis:
+                        c_false.add(attr)
+            for c in f.calls():
+                g = self.prog.func_of(self.prog.callee(c, f) or '')
+                if g is None or g.qname not in unl:
+                    continue
+                p = self.parent(f.module, c)
+                while p is not None and p is not f.node:
+                    if isinstance(p, (ast.If, ast.While, ast.IfExp)):
+                        for x in ast.walk(p.test):
+                            if _is_self_attr(x) and x.attr in self.flag_stores:
+                                guard.add(x.attr)
+                    p = self.parent(f.module, p)
+        for cand in (c_true & c_false, (c_true | c_false) & guard, guard, c_true | c_false):
+            if len(cand) == 1:
+                return next(iter(cand))
+        raise AnalysisError(
+            'cannot identify the per-connection ownership flag of Worker: boolean self flags set with lock_db '
+            f'{sorted(c_true)}, cleared with unlock_db {sorted(c_false)}, guarding an unlock {sorted(guard)}'
+        )
+
+    # --------------------------------------------------------------- touchers
+    def _touchers(self):
+        """functions from which a bit event (context API call) or a flag event is reachable through direct calls"""
+        self.flag_funcs = {f.qname for f, _n in self.flag_stores.get(self.has, []) if f is not self.init}
+        targets = set(self.apis)
+        seen = self._rev(targets | self.flag_funcs)
         self.touchers = seen
-        rel = seen - targets
+        rel = self.rel = seen - targets
         anchors = [self.do_acquire, self.do_release, self.lost]
         roots = {f.qname: f for f in anchors}
         for q in sorted(rel):
             f = self.prog.funcs[q]
             if f.cls is not self.cls:
-                continue  # R-C13-1 rejects every use of a primitive outside Worker
+                continue  # R-C13-1 rejects every use of the context API outside Worker
             inc = self.cg.inn.get(q, [])
             if not inc or any(not (e.kind == DIRECT and e.src is not None and e.src.qname in rel) for e in inc):
                 roots.setdefault(q, f)
         self.roots = roots
+        # helpers whose name is unique in the program: an attribute of that name can only mean this method
+        names = collections.Counter(f.node.name for f in self.prog.funcs.values())
+        self.strict_names = {
+            self.prog.funcs[q].name for q in rel if self.prog.funcs[q].cls is self.cls and self.prog.funcs[q].parent is None
+            and names[self.prog.funcs[q].name] == 1
+        }
 
     # ------------------------------------------------------------ interpreter
-    def entries(self):
-        for o in OWNERS:
+    def entries(self, owners=OWNERS):
+        """the Inv states"""
+        for o in owners:
             for fl in itertools.product((False, True), repeat=len(self.flags)):
-                yield S(o, fl, False, frozenset(), frozenset(), 'None')
+                yield mk(o, fl)
 
-    def run(self, f, st):
+    def run(self, f, st, sink=None):
+        sink = sink or self.sink
         key = (f.qname, st)
-        r = self._summ.get(key)
+        r = sink.summ.get(key)
         if r is None:
-            sem = Sem(self, f, 0, (f.qname,))
+            sem = Sem(self, f, sink, 0, (f.qname,), None)
             out = sem.run(f.node, st)
-            self.sink.visited += sem.visited
-            self.sink.runs += 1
-            r = self._summ[key] = frozenset(out.normal | out.ret | out.exc)
+            sink.visited += sem.visited
+            sink.runs += 1
+            r = sink.summ[key] = frozenset(out.normal | out.ret | out.exc)
         return r
 
     def interpret(self):
-        for f in self.roots.values():
-            for st in self.entries():
-                self.run(f, st)
+        """run every root from the Inv states and from whatever the roots and the other connections can make of them"""
+        inv = set(self.entries())
+        states, todo = set(inv), list(inv)
+        while todo:
+            st = todo.pop()
+            nxt = set()
+            for f in self.roots.values():
+                nxt |= {clean(e) for e in self.run(f, st)}
+            if not st.bit:
+                nxt.add(st._replace(bit=True, other=True))  # another connection takes the free lock
+            elif st.other:
+                nxt.add(st._replace(bit=False, other=False))  # the other owner releases
+            for n in nxt - states:
+                states.add(n)
+                todo.append(n)
+        self.extra_states = states - inv
+
+    def incoherent(self, f, sink=None):
+        """(entry, exit) pairs of f, from the Inv states, where bit and ownership flag did not move together"""
+        return [(st, e) for st in self.entries() for e in self.run(f, st, sink) if not moved_together(st, e)]
+
+    def blame(self, root):
+        """innermost incoherent functions below an incoherent root (wrappers are blamed, not their callers)"""
+        scratch = Sink()
+        cand, todo = {}, [root]
+        while todo:
+            f = todo.pop()
+            if f.qname in cand:
+                continue
+            cand[f.qname] = f
+            for e in self.cg.callees(f.qname, kinds={DIRECT}):
+                g = self.prog.funcs.get(e.dst)
+                if g is not None and g.qname in self.rel and g.cls is self.cls and g.parent is None:
+                    todo.append(g)
+        bad = {q for q, f in cand.items() if f is root or self.incoherent(f, scratch)}
+        out = []
+        for q in sorted(bad):
+            callees = {e.dst for e in self.cg.callees(q, kinds={DIRECT})}
+            if not (callees & bad - {q}):
+                out.append(cand[q])
+        return out or [root]
 
     def flagtxt(self, fl):
         return '{' + ', '.join(f'{k.replace("_Worker", "")}={v}' for k, v in zip(self.flags, fl)) + '}'
 
 
 class Sem(Flow):
-    """exact interpreter of Worker methods over (owner, boolean self-flags, told, known locals)
+    """exact interpreter of Worker methods over (bit, own flag, other owner, boolean self-flags, told, known locals)
 
     values: True / False / 'None' / 'M.unlock' / 'M.lock' / UNK.  A test whose value is
     unknown keeps both branches.  Calls of other Worker methods through ``self`` are inlined
-    (helper extraction does not change the verdict); the primitives and ``_send`` are events.
+    (helper extraction / wrapper inlining does not change the verdict).  Events: a call resolving
+    to context.lock_db / unlock_db, ``self.<ownership flag> = const``, ``self._send(v)``.  An event
+    is attributed to the innermost enclosing *root* function (or the outermost frame).
     """
 
-    def __init__(self, model, func, depth, stack):
+    def __init__(self, model, func, sink, depth, stack, site):
         super().__init__()
         self.m = model
+        self.sink = sink
         self.f = func
         self.depth = depth
         self.stack = stack
-        model.sink.funcs[func.qname] = func
+        self.site = site  # (func, call) the events of this frame are attributed to; None = this frame itself
+        sink.funcs[func.qname] = func
         for n in func.own_nodes():
             if isinstance(n, (ast.Yield, ast.YieldFrom, ast.Await)):
-                model.sink.problem(
+                sink.problem(
                     func, n, 'the function suspends (yield/await): status read and lock change are not one atomic reactor step'
                 )
                 break
@@ -306,12 +418,12 @@ class Sem(Flow):
         if isinstance(e, ast.Attribute):
             if _is_self_attr(e) and self.f.cls is self.m.cls:
                 if e.attr == self.m.has:
-                    return st.owner == ME
+                    return st.has
                 if e.attr in self.m.flags:
                     return st.flags[self.m.flags.index(e.attr)]
             sym = self.m.prog.resolve_in(e, self.f)
             if sym == BIT:
-                return st.owner != NONE
+                return st.bit
             if sym and sym.startswith(MUTEX + '.') and sym[len(MUTEX) + 1 :] in self.m.mutex:
                 return 'M.' + sym[len(MUTEX) + 1 :]
             return UNK
@@ -383,10 +495,12 @@ class Sem(Flow):
                         nxt.append(self._bind(x, t.id, v))
                     elif _is_self_attr(t) and self.f.cls is self.m.cls and t.attr in self.m.flags:
                         nxt.extend(self._setflag(x, t.attr, v if (v is True or v is False) else UNK))
+                    elif _is_self_attr(t, self.m.has) and self.f.cls is self.m.cls:
+                        nxt.extend(x._replace(has=b) for b in ((v,) if (v is True or v is False) else (True, False)))
                     elif isinstance(t, (ast.Tuple, ast.List, ast.Starred)):
                         nxt.append(self._drop(x, _names(t)))
                     else:
-                        nxt.append(x)  # the ownership flag itself is only written by the primitives (R-C13-1)
+                        nxt.append(x)
                 states = nxt
         elif isinstance(s, ast.AugAssign):
             states = [self._drop(st, _names(s.target))]
@@ -438,50 +552,52 @@ class Sem(Flow):
             and isinstance(call.func, ast.Attribute)
             and (_is_self_attr(call.func) or (g.is_staticmethod() and m.prog.resolve_in(call.func.value, self.f) == WORKER))
         )
-        kind = m.prims.get(g.qname)
-        if kind is not None:
-            if not on_self:
+        func, node = self.site or (self.f, call)
+        if g.qname in m.apis:
+            if self.f.cls is not m.cls:
                 return (st,)  # rejected by R-C13-1
-            m.sink.event(kind, self.f, call, st.owner)
-            return (st._replace(owner=ME if kind == 'lock' else NONE),)
+            if g.qname == API_LOCK:
+                self.sink.event('lock', func, node, (not st.bit, who(st)))
+                return (st._replace(bit=True),)
+            self.sink.event('unlock', func, node, (mine(st), who(st)))
+            return (st._replace(bit=False),)
         if g is m.send and on_self:
             v = self.val(call.args[0], st) if call.args and not isinstance(call.args[0], ast.Starred) else UNK
-            m.sink.event('send', self.f, call, (st.owner, v))
-            if v == 'M.unlock' and st.owner == ME:
+            self.sink.event('send', func, node, (mine(st), who(st), v))
+            if v == 'M.unlock' and mine(st):
                 st = st._replace(told=True)
             return (st,)
-        if g.qname in m.apis:
-            return (st,)  # direct use of the context API outside the primitives: rejected by R-C13-1
         if on_self:
             return self._inline(call, g, st)
         if g.qname in m.touchers:
-            m.sink.problem(
-                self.f, call, f'{g.qname} can reach a lock primitive but is not a method called through self: effect on the lock not understood'
+            self.sink.problem(
+                self.f, call, f'{g.qname} can reach a lock event but is not a method called through self: effect on the lock not understood'
             )
         return (st,)
 
     def _inline(self, call, g, st):
-        m = self.m
+        m, sink = self.m, self.sink
         if self.depth >= MAX_INLINE or g.qname in self.stack:
             if g.qname in m.touchers or g is self.f:
-                m.sink.problem(self.f, call, f'call of {g.qname} is recursive or nested deeper than {MAX_INLINE}: not interpreted')
+                sink.problem(self.f, call, f'call of {g.qname} is recursive or nested deeper than {MAX_INLINE}: not interpreted')
             return (st,)
-        st0 = S(st.owner, st.flags, st.told, frozenset(), frozenset(), 'None')
-        key = ('inl', g.qname, st0)
-        res = m.sink.cache.get(key)
+        site = None if g.qname in m.roots else (self.site or (self.f, call))
+        st0 = S(st.bit, st.has, st.other, st.flags, st.told, frozenset(), frozenset(), 'None')
+        key = ('inl', g.qname, st0, (site[0].qname, _pos(site[1])) if site else None)
+        res = sink.cache.get(key)
         if res is None:
-            sub = Sem(m, g, self.depth + 1, self.stack + (g.qname,))
+            sub = Sem(m, g, sink, self.depth + 1, self.stack + (g.qname,), site)
             out = sub.run(g.node, st0)
-            m.sink.visited += sub.visited
+            sink.visited += sub.visited
             if out.exc and g.qname in m.touchers:
-                m.sink.problem(self.f, call, f'{g.qname} may leave through a raise statement: exceptional effect on the lock not understood')
-            res = m.sink.cache[key] = frozenset((e.owner, e.flags, e.told, e.rv) for e in out.normal | out.ret)
+                sink.problem(self.f, call, f'{g.qname} may leave through a raise statement: exceptional effect on the lock not understood')
+            res = sink.cache[key] = frozenset((e.bit, e.has, e.other, e.flags, e.told, e.rv) for e in out.normal | out.ret)
         outs = set()
-        for owner, flags, told, rv in res:
+        for bit, has, other, flags, told, rv in res:
             tmp = dict(st.tmp)
             if rv is not UNK:
                 tmp[_pos(call)] = rv
-            outs.add(st._replace(owner=owner, flags=flags, told=told, tmp=frozenset(tmp.items())))
+            outs.add(st._replace(bit=bit, has=has, other=other, flags=flags, told=told, tmp=frozenset(tmp.items())))
         return outs
 
 
@@ -508,7 +624,7 @@ class _Must(Flow):
 def _scan(model):
     """all nodes of the program that mention the lock vocabulary (who-may-write net)"""
     prog = model.prog
-    attr_names = {'db_lock', 'lock_db', 'unlock_db', model.lock.name, model.unlock.name, model.has}
+    attr_names = {'db_lock', 'lock_db', 'unlock_db', model.has} | model.strict_names
     bare = model.has.replace('_' + model.cls.name.lstrip('_'), '', 1)
     str_names = attr_names | {bare}
     hits = []
@@ -542,15 +658,16 @@ def _rule1(model, rep):
     prog, cg = model.prog, model.cg
     with rep.rule(
         'R-C13-1',
-        'one bit, one owner API: context.db_lock is written only by lock_db/unlock_db, those are called only by '
-        'Worker._lock_db/_unlock_db, which are used only as direct self-calls inside Worker and move bit and ownership flag together',
+        'one bit, one owner API: context.db_lock is written only by lock_db/unlock_db, those are called only (directly) inside Worker, '
+        'the ownership flag is written only as self.<flag> = <bool constant> inside Worker, and every function of Worker that is entered '
+        'from outside moves bit and ownership flag together on every path',
         floor=12,
         breaks='a second writer frees or takes the lock behind the holder (two holders), or bit and per-connection flag drift apart '
         '(lock never released / released by a non-holder)',
     ) as r:
-        rep.analysed(model.api_lock, model.api_unlock, model.lock, model.unlock, model.init)
+        rep.analysed(model.api_lock, model.api_unlock, model.init)
         ctxmod = prog.module(CTX)
-        want_api = {API_LOCK: (model.lock, True), API_UNLOCK: (model.unlock, False)}
+        want_api = {API_LOCK: True, API_UNLOCK: False}
         roles = set()
         for m, n in _scan(model):
             f = model.owner_func(m, n)
@@ -611,8 +728,8 @@ def _rule1(model, rep):
                     r.check(c is False, key, wh, 'module initialisation: the lock starts free', 'dawgie.context.db_lock is not initialised to the constant False', nontrivial=False)
                 elif f is not None and f.qname in want_api:
                     r.check(
-                        c is want_api[f.qname][1], key, wh, f'{f.name} writes the constant {c}',
-                        f'{f.qname} must assign the constant {want_api[f.qname][1]} to the lock bit, found {norm(s or n)}',
+                        c is want_api[f.qname], key, wh, f'{f.name} writes the constant {c}',
+                        f'{f.qname} must assign the constant {want_api[f.qname]} to the lock bit, found {norm(s or n)}',
                     )
                 else:
                     r.fail(key, wh, f'dawgie.context.db_lock is written in {fq}; only context.lock_db/unlock_db may write the lock bit')
@@ -625,26 +742,24 @@ def _rule1(model, rep):
                     r.fail(key, wh, f'{norm(n)} resolves to {sym}: not understood (expected dawgie.context.{getattr(n, "attr", getattr(n, "id", ""))})')
                     continue
                 r.instance()
-                roles.add(('api', sym, fq))
-                prim = want_api[sym][0]
+                roles.add(('api', sym))
                 r.check(
-                    isinstance(par, ast.Call) and par.func is n and f is prim, key, wh,
-                    f'direct call inside {prim.name}',
-                    f'{sym} is used in {fq}; it may only be called directly from {prim.qname}',
+                    isinstance(par, ast.Call) and par.func is n and f is not None and f.cls is model.cls, key, wh,
+                    f'direct call inside Worker.{f.name if f is not None else "?"} (a bit event, interpreted by R-C13-2/4)',
+                    f'{sym} is used in {fq}; it may only be called directly from methods of Worker (a lock change made elsewhere has no owner)',
                 )
                 continue
-            # ---- the primitives
-            if isinstance(n, ast.Attribute) and n.attr in (model.lock.name, model.unlock.name):
-                key = f'{fq}:{norm(par if isinstance(par, ast.Call) else n)}'
-                r.check(
-                    _is_self_attr(n) and f is not None and f.cls is model.cls and isinstance(par, ast.Call) and par.func is n,
-                    key, wh, 'direct self-call inside Worker (interpreted by R-C13-2/4)',
-                    f'{norm(n)} in {fq} is not a direct self-call inside Worker (deferred, aliased or foreign use of a lock primitive is not understood)',
-                    nontrivial=False,
-                )
+            # ---- helpers of Worker that lead to a lock event (name unique in the program)
+            if isinstance(n, ast.Attribute) and n.attr in model.strict_names:
+                if not (_is_self_attr(n) and f is not None and f.cls is model.cls):
+                    r.fail(
+                        f'{fq}:{norm(par if isinstance(par, ast.Call) else n)}', wh,
+                        f'{norm(n)} in {fq} is not a use through self inside Worker: a lock event on a foreign connection object is not understood',
+                    )
                 continue
-            if isinstance(n, ast.Name) and n.id in (model.lock.name, model.unlock.name):
-                r.fail(f'{fq}:{norm(n)}', wh, f'bare name {n.id}: alias of a lock primitive not understood')
+            if isinstance(n, ast.Name) and n.id in model.strict_names:
+                if not isinstance(par, (ast.FunctionDef, ast.AsyncFunctionDef)):
+                    r.fail(f'{fq}:{norm(n)}', wh, f'bare name {n.id}: alias of a method of Worker that changes the lock is not understood')
                 continue
             # ---- the ownership flag
             if isinstance(n, ast.Attribute) and n.attr == model.has:
@@ -653,14 +768,17 @@ def _rule1(model, rep):
                         r.fail(f'{fq}:{norm(n)}', wh, 'ownership flag read through something other than self inside Worker')
                     continue
                 r.instance()
-                roles.add(('flag', fq))
                 s, c = _const_store(model, m, n)
                 key = f'{fq}:{norm(s or n)}'
-                want = {model.init.qname: False, model.lock.qname: True, model.unlock.qname: False}
-                ok = _is_self_attr(n) and f is not None and f.qname in want and c is want[f.qname]
+                inside = _is_self_attr(n) and f is not None and f.cls is model.cls
+                if inside and c is not None:
+                    roles.add(('flag', 'init' if f is model.init else c))
+                ok = inside and c is not None and (f is not model.init or c is False)
                 r.check(
-                    ok, key, wh, f'{f.name if f else fq} assigns the constant {c}',
-                    f'the ownership flag is written in {fq} ({norm(s or n)}); it may only become True in _lock_db and False in _unlock_db/__init__',
+                    ok, key, wh, f'{f.name if f else fq} assigns the constant {c} (a flag event, interpreted)',
+                    f'the ownership flag is written in {fq} by {norm(s or n)}; it may only be assigned a boolean constant through self inside Worker '
+                    '(and False in __init__)',
+                    nontrivial=False,
                 )
                 continue
             if isinstance(n, ast.Name) and n.id == model.has:
@@ -670,25 +788,26 @@ def _rule1(model, rep):
             (('bit', CTX + ':<module>'), ctxmod, None, 'dawgie.context no longer initialises db_lock at module level'),
             (('bit', API_LOCK), None, model.api_lock, 'context.lock_db no longer writes the lock bit'),
             (('bit', API_UNLOCK), None, model.api_unlock, 'context.unlock_db no longer writes the lock bit'),
-            (('api', API_LOCK, model.lock.qname), None, model.lock, 'Worker._lock_db no longer calls context.lock_db: the bit stays free while this connection believes it owns the lock'),
-            (('api', API_UNLOCK, model.unlock.qname), None, model.unlock, 'Worker._unlock_db no longer calls context.unlock_db: the lock is never freed'),
-            (('flag', model.init.qname), None, model.init, 'Worker.__init__ no longer initialises the ownership flag'),
-            (('flag', model.lock.qname), None, model.lock, 'Worker._lock_db no longer sets the ownership flag: the holder can never release'),
-            (('flag', model.unlock.qname), None, model.unlock, 'Worker._unlock_db no longer clears the ownership flag: a former holder frees the lock of its successor'),
+            (('api', API_LOCK), None, model.do_acquire, 'no method of Worker calls context.lock_db any more: the bit stays free while a connection believes it owns the lock'),
+            (('api', API_UNLOCK), None, model.do_release, 'no method of Worker calls context.unlock_db any more: the lock is never freed'),
+            (('flag', 'init'), None, model.init, 'Worker.__init__ no longer initialises the ownership flag'),
+            (('flag', True), None, model.do_acquire, 'no method of Worker sets the ownership flag any more: the holder can never release'),
+            (('flag', False), None, model.do_release, 'no method of Worker clears the ownership flag any more: a former holder frees the lock of its successor'),
         ]
         for role, mod, fn, msg in expected:
             if role not in roles:
                 r.instance()
-                r.fail(f'{role[-1]}:missing-{role[0]}-write', where(fn) if fn is not None else f'{mod.relpath}:1', msg, nontrivial=False)
-        # ---- every edge of the call graph into API and primitives is a direct one (no deferred use)
-        for q in list(want_api) + list(model.prims):
+                subject = role[1] if role[0] == 'bit' else f'{WORKER}:{str(role[1]).rsplit(".", 1)[-1]}'
+                r.fail(f'{subject}:missing-{role[0]}-event', where(fn) if fn is not None else f'{mod.relpath}:1', msg, nontrivial=False)
+        # ---- every edge of the call graph into the API is a direct one (no deferred use)
+        for q in list(want_api):
             for e in cg.callers(q):
                 if e.kind != DIRECT:
                     r.fail(
                         f'{e.src.qname}:{norm(e.call)[:100]}', where(e.src, e.call),
-                        f'{q} is passed as a value ({e.kind} via {e.via}): deferred use of a lock primitive is not understood',
+                        f'{q} is passed as a value ({e.kind} via {e.via}): deferred use of the lock API is not understood',
                     )
-        # ---- coherence: on every path the API writes the bit and the primitives move bit and flag together
+        # ---- coherence: on every path the API writes the bit
         def bit_store(node):
             if isinstance(node, ast.Assign):
                 for t in node.targets:
@@ -698,23 +817,12 @@ def _rule1(model, rep):
                         return 'bit'
             return None
 
-        def prim_tag(node):
-            if isinstance(node, ast.Call):
-                g = prog.func_of(prog.callee(node, cur[0]) or '')
-                if g is not None and g.qname == cur[1]:
-                    return 'bit'
-            if isinstance(node, ast.Assign) and any(_is_self_attr(t, model.has) for t in node.targets):
-                return 'flag'
-            return None
-
         cur = [None, None]
         for f, tagger, need in (
             (model.api_lock, bit_store, {'bit'}),
             (model.api_unlock, bit_store, {'bit'}),
-            (model.lock, prim_tag, {'bit', 'flag'}),
-            (model.unlock, prim_tag, {'bit', 'flag'}),
         ):
-            cur[0], cur[1] = f, API_LOCK if f is model.lock else API_UNLOCK
+            cur[0] = f
             r.instance()
             fl = _Must(tagger)
             out = fl.run(f.node, frozenset())
@@ -725,7 +833,27 @@ def _rule1(model, rep):
                 f'every normal exit has done {sorted(need)} ({len(exits)} exit state(s))',
                 f'{f.qname} can return without having updated {missing or sorted(need)}: bit and ownership flag drift apart',
             )
+        # ---- coherence: every function of Worker entered from outside moves bit and ownership flag together
+        blamed = {}
+        for q, f in sorted(model.roots.items()):
+            r.instance()
+            bad = model.incoherent(f)
+            if not bad:
+                r.ok(f'{q}:bit-and-flag-move-together', 'from every Inv entry state: whenever bit or flag changed they agree at every exit', where(f))
+                continue
+            st, e = bad[0]
+            for g in model.blame(f):
+                blamed.setdefault(g.qname, (g, f, st, e))
+        for q, (g, f, st, e) in sorted(blamed.items()):
+            via = '' if g is f else f' (seen from {f.name})'
+            r.fail(
+                f'{q}:bit-and-flag-move-together', where(g),
+                f'{g.name}{via} can change the lock bit and the ownership flag apart: entered as {who(st)} '
+                f'(bit={st.bit}, flag={st.has}) it can end with bit={e.bit}, flag={e.has}; a lock event without its flag event '
+                '(or the reverse) leaves a stale owner',
+            )
         r.extra['ownership_flag'] = model.has
+        r.extra['lock_event_functions'] = sorted(model.rel)
         r.extra['accepted_reflective_writers'] = ACCEPTED_REFLECTIVE
 
 
@@ -759,17 +887,17 @@ def _rule2(model, rep):
     cg, sink = model.cg, model.sink
     with rep.rule(
         'R-C13-2',
-        'atomic test-and-set: every call of Worker._lock_db is reached only in states where the bit is free (status read and '
+        'atomic test-and-set: every call leading to context.lock_db is reached only in states where the bit is free (status read and '
         'lock in one reactor step; no function that can touch the lock runs on a pool thread or is handed out as a value)',
         floor=7,
         breaks='two connections are granted the lock at the same time',
     ) as r:
         for (fq, txt), d in sorted(sink.ev['lock'].items()):
             r.instance()
-            bad = sorted(o for o in d['obs'] if o != NONE)
+            bad = sorted({w for ok, w in d['obs'] if not ok})
             r.check(
                 not bad, f'{fq}:{txt}', where(d['func'], d['node']),
-                f'owner at the call over all entry states: {sorted(d["obs"])}',
+                f'owner at the call over all entry states: {sorted({w for _ok, w in d["obs"]})}',
                 f'{txt} is reachable while the lock is held by {bad} (not dominated by a fresh status == Mutex.unlock test)',
             )
         thr = cg.thread_reachable()
@@ -796,6 +924,7 @@ def _rule2(model, rep):
             r.fail(k, wh, msg)
         r.extra['roots_interpreted'] = sorted(model.roots)
         r.extra['entry_states_per_root'] = len(list(model.entries()))
+        r.extra['extra_states_reached'] = len(model.extra_states)
         r.extra['boolean_self_flags'] = list(model.flags)
         r.extra['interpreter_runs'] = sink.runs
         r.extra['interpreter_steps'] = sink.visited
@@ -856,33 +985,31 @@ def _rule3(model, rep):
     ) as r:
         status_sites = 0
         for (fq, txt), d in sorted(sink.ev['send'].items()):
-            vals = {v for _o, v in d['obs']}
+            vals = {v for _ok, _w, v in d['obs']}
             in_poll = fq == model.do_acquire.qname
             if not in_poll and not (vals & {'M.unlock', 'M.lock'}):
                 continue  # replies to other commands
             r.instance()
             status_sites += 1
-            bad = sorted(o for o, v in d['obs'] if v == 'M.unlock' and o != ME)
+            bad = sorted({w for ok, w, v in d['obs'] if v == 'M.unlock' and not ok})
             unk = in_poll and UNK in vals
             r.check(
                 not bad and not unk, f'{fq}:{txt}', where(d['func'], d['node']),
-                f'(owner, value) pairs at this send: {sorted(d["obs"], key=str)}',
+                f'(owner, value) pairs at this send: {sorted({(w, v) for _ok, w, v in d["obs"]}, key=str)}',
                 (f'{txt} can send Mutex.unlock while the lock is owned by {bad}' if bad else f'{txt} sends a value the analysis cannot evaluate inside the poll'),
             )
         # a connection that takes the lock in a poll has told its client on every exit
         f = model.do_acquire
         r.instance()
         silent = []
-        for st in model.entries():
-            if st.owner == ME:
-                continue
+        for st in model.entries((NONE, OTHER)):
             for e in model.run(f, st):
-                if e.owner == ME and not e.told:
+                if mine(e) and not e.told:
                     silent.append((st, e))
         r.check(
             not silent, f'{f.qname}:grant-is-announced', where(f),
             'every exit that has taken the lock has sent Mutex.unlock while owning it',
-            f'{f.name} can take the lock and return without sending Mutex.unlock (entry owner={silent[0][0].owner} flags={model.flagtxt(silent[0][0].flags)})' if silent else '',
+            f'{f.name} can take the lock and return without sending Mutex.unlock (entry owner={who(silent[0][0])} flags={model.flagtxt(silent[0][0].flags)})' if silent else '',
         )
         # client side
         acq = model.prog.func(COMMS + '.acquire')
@@ -974,7 +1101,7 @@ def _rule4(model, rep):
     sink = model.sink
     with rep.rule(
         'R-C13-4',
-        'release on request and on loss: _unlock_db is reached only by the owner; _do_release and connectionLost free the lock whenever '
+        'release on request and on loss: context.unlock_db is reached only by the owner; _do_release and connectionLost free the lock whenever '
         'this connection owns it; after connectionLost a poll of the same connection can no longer take the lock',
         floor=5,
         breaks='a non-holder frees the lock under the holder; a holder that disconnects (or asks to release) keeps the lock for ever; '
@@ -982,21 +1109,20 @@ def _rule4(model, rep):
     ) as r:
         for (fq, txt), d in sorted(sink.ev['unlock'].items()):
             r.instance()
-            bad = sorted(o for o in d['obs'] if o != ME)
+            bad = sorted({w for ok, w in d['obs'] if not ok})
             r.check(
                 not bad, f'{fq}:{txt}', where(d['func'], d['node']),
-                f'owner at the call over all entry states: {sorted(d["obs"])}',
-                f'{txt} is reachable when the lock is owned by {bad}: it is not guarded by this connection\'s ownership flag',
+                f'owner at the call over all entry states: {sorted({w for _ok, w in d["obs"]})}',
+                f'{txt} is reachable when the lock is owned by {bad}: it is not guarded by an ownership flag that is true exactly while '
+                'this connection owns the lock',
             )
         for f, what in ((model.do_release, 'release request'), (model.lost, 'connection loss')):
             rep.analysed(f)
             r.instance()
             kept = []
-            for st in model.entries():
-                if st.owner != ME:
-                    continue
+            for st in model.entries((ME,)):
                 for e in model.run(f, st):
-                    if e.owner != NONE:
+                    if e.bit:
                         kept.append(st)
             r.check(
                 not kept, f'{f.qname}:owner-releases', where(f),
@@ -1009,10 +1135,10 @@ def _rule4(model, rep):
         n = 0
         for st in model.entries():
             for e in model.run(model.lost, st):
-                st2 = S(NONE, e.flags, False, frozenset(), frozenset(), 'None')
+                st2 = clean(e)._replace(bit=False, other=False)
                 n += 1
                 for e2 in model.run(model.do_acquire, st2):
-                    if e2.owner == ME or e2.told:
+                    if e2.bit or e2.told:
                         revived.append(e.flags)
         r.check(
             not revived, f'{model.lost.qname}:request-abandoned', where(model.lost),
@@ -1042,7 +1168,7 @@ def _rule5(model, rep):
         # the flag valuation established by the constructor
         r.instance()
         fresh = set()
-        for st in model.entries():
+        for st in model.entries((NONE, OTHER)):
             for e in model.run(model.init, st):
                 fresh.add(e.flags)
         fl = sorted(fresh)[0] if fresh else tuple(False for _ in model.flags)
@@ -1053,29 +1179,29 @@ def _rule5(model, rep):
         )
         f = model.do_acquire
         r.instance()
-        st = S(NONE, fl, False, frozenset(), frozenset(), 'None')
+        st = mk(NONE, fl)
         exits = model.run(f, st)
-        bad = [e for e in exits if not (e.owner == ME and e.told)]
+        bad = [e for e in exits if not (mine(e) and e.told)]
         r.check(
             exits and not bad, f'{f.qname}:free-is-granted', where(f),
             f'all {len(exits)} exit(s) from (free, fresh) own the lock and have sent Mutex.unlock',
             f'{f.name} polled by a fresh connection while the lock is free can return without granting it '
-            f'(exit owner={bad[0].owner}, told={bad[0].told}): an exit other than the stopped/lost early returns precedes the grant' if bad else f'{f.name} has no exit',
+            f'(exit owner={who(bad[0])}, told={bad[0].told}): an exit other than the stopped/lost early returns precedes the grant' if bad else f'{f.name} has no exit',
         )
         # polling states reachable through polls that found the lock held: each must still be granted a free lock
         r.instance()
         reach, todo, stuck = {fl}, [fl], []
         while todo:
             cur = todo.pop()
-            for e in model.run(f, S(OTHER, cur, False, frozenset(), frozenset(), 'None')):
-                if e.owner != OTHER:
-                    stuck.append((cur, f'changes the owner to {e.owner} while the lock is held elsewhere'))
+            for e in model.run(f, mk(OTHER, cur)):
+                if not (e.bit and e.other and not e.has):
+                    stuck.append((cur, f'changes the lock state to {who(e)} while the lock is held elsewhere'))
                 elif e.flags not in reach:
                     reach.add(e.flags)
                     todo.append(e.flags)
         for cur in sorted(reach - {fl}):
-            for e in model.run(f, S(NONE, cur, False, frozenset(), frozenset(), 'None')):
-                if not (e.owner == ME and e.told):
+            for e in model.run(f, mk(NONE, cur)):
+                if not (mine(e) and e.told):
                     stuck.append((cur, 'is not granted the lock once it is free'))
         r.check(
             not stuck, f'{f.qname}:keeps-polling', where(f),
@@ -1236,14 +1362,15 @@ def check(ctx):
         ctx.tier,
         ctx.prog,
         'Decides from the source of db/shelve/comms.py, context.py, db/shelve/model.py and the whole-program call graph: '
-        '(1) who may write the lock bit and the per-connection ownership flag, and that the two primitives move them together; '
+        '(1) who may write the lock bit and the per-connection ownership flag (events found by role: calls resolving to '
+        'context.lock_db/unlock_db, self.<flag> = const), and that every externally entered Worker function moves them together; '
         '(2-5) by exact interpretation of the Worker methods over all abstract entry states (owner in {none, me, other} x every '
-        'valuation of the boolean self-flags): lock only when free, in reactor context; Mutex.unlock sent only by the new owner and '
+        'valuation of the boolean self-flags, closed under the roots and the moves of other connections): lock only when free, in reactor context; Mutex.unlock sent only by the new owner and '
         'always by it; unlock only by the owner, always on release request and on connection loss; a lost connection never takes '
         'the lock; a fresh poll takes a free lock and keeps polling otherwise; request dispatch and client loop agree; '
         '(6) every client acquire is released on all paths including exceptions. '
         'Not decided: fairness between waiters (poll order), timing of the 3 s poll / 1 s stop, exceptions raised by calls outside '
-        'a try (e.g. between _lock_db() and _send in the grant branch), a second acquire request on one connection.',
+        'a try (e.g. between the lock event and _send in the grant branch), a second acquire request on one connection.',
         assumptions=[
             'Twisted runs protocol callbacks and LoopingCall functions on the single reactor thread, one at a time',
             'Inv: db_lock is set iff exactly one connection has its ownership flag set (established by R-C13-1/2/4, used as entry assumption)',
@@ -1295,11 +1422,14 @@ VARIANTS = [
     V('poll never started', 'B', _CF, 'Worker.do', 'self.__looping_call.start(3)', 'pass', 'R-C13-5'),
     V('bit written in model.py', 'B', 'db/shelve/model.py', 'Interface._update', 'valid = True',
       'valid = True\n        dawgie.context.db_lock = False', 'R-C13-1'),
-    V('ownership flag written in do', 'B', _CF, 'Worker.do', 'log.debug("Inside worker: Release")', 'self.__has_lock = True', 'R-C13-1'),
+    V('ownership flag written in do', 'B', _CF, 'Worker.do', 'log.debug("Inside worker: Release")', 'self.__has_lock = True', 'R-C13-4'),
     V('_unlock_db forgets the ownership flag', 'B', _CF, 'Worker._unlock_db', 'self.__has_lock = False', 'pass', 'R-C13-1'),
     V('_lock_db forgets the bit', 'B', _CF, 'Worker._lock_db', 'dawgie.context.lock_db()', 'pass', 'R-C13-1'),
     V('primitive deferred through callLater', 'B', _CF, 'Worker.connectionLost', 'self._unlock_db()',
-      'twisted.internet.reactor.callLater(0, self._unlock_db)', 'R-C13-1'),
+      'twisted.internet.reactor.callLater(0, self._unlock_db)', 'R-C13-4'),
+    V('unlock inlined in _do_release without the flag half', 'B', _CF, 'Worker._do_release', 'self._unlock_db()', 'dawgie.context.unlock_db()', 'R-C13-1'),
+    V('lock inlined in _do_acquire without the flag half', 'B', _CF, 'Worker._do_acquire', 'self._lock_db()', 'dawgie.context.lock_db()', 'R-C13-1'),
+    V('unlock wrapper called on a foreign object', 'B', _CF, 'Worker._do_release', 'self._send(False)', 'self._send(False)\n            DBSerializer()._unlock_db()', 'R-C13-1'),
     V('setattr on the bit', 'B', 'db/shelve/model.py', 'Interface._update', 'valid = True',
       "valid = True\n        setattr(dawgie.context, 'db_lock', False)", 'R-C13-1'),
     V('release only in an except handler', 'B', 'db/shelve/model.py', 'Interface._update_msv', 'finally:', 'except ImportError:', 'R-C13-6'),
@@ -1308,6 +1438,12 @@ VARIANTS = [
       'valid = self._alg().abort() is not None', 'R-C13-6'),
     V('work between acquire and try in _do_copy', 'B', _CF, 'Worker._do_copy', "lok = acquire('copy')", "lok = acquire('copy')\n        DBI().close()", 'R-C13-6'),
     # ---- benign
+    V('lock wrapper inlined in _do_acquire', 'N', _CF, 'Worker._do_acquire', 'self._lock_db()',
+      'dawgie.context.lock_db()\n            self.__has_lock = True', None),
+    V('unlock wrapper inlined in _do_release', 'N', _CF, 'Worker._do_release', 'self._unlock_db()',
+      'dawgie.context.unlock_db()\n            self.__has_lock = False', None),
+    V('unlock wrapper inlined in connectionLost, flag first', 'N', _CF, 'Worker.connectionLost', 'self._unlock_db()',
+      'self.__has_lock = False\n            dawgie.context.unlock_db()', None),
     V('status read inlined', 'N', _CF, 'Worker._do_acquire', 'if s == Mutex.unlock:', 'if self._get_db_lock_status() == Mutex.unlock:', None),
     V('comparison mirrored', 'N', _CF, 'Worker._do_acquire', 'if s == Mutex.unlock:', 'if Mutex.unlock == s:', None),
     V('comparison through the other member', 'N', _CF, 'Worker._do_acquire', 'if s == Mutex.unlock:', 'if not s == Mutex.lock:', None),
